@@ -166,3 +166,33 @@ func H_C13_statement_wide() {
 	n := 3 + nondetChoice("n", 3)
 	statementListCore(n, true)
 }
+
+// content added after a first render: a list that was null becomes non-null (nothing about a
+// list may be remembered from an earlier render)
+func H_C13_late_content() {
+	slot := Add()
+	var st *Statement
+	want1, want2 := "", ""
+	x := nondetString("x")
+	switch nondetChoice("construct", 4) {
+	case 0:
+		st = Id("f").Call(List(slot), Id("b"))
+		want1, want2 = "f (b)", "f ("+x+",b)"
+	case 1:
+		st = Id("f").Types(slot)
+		want1, want2 = "f ", "f ["+x+"]"
+	case 2:
+		st = Id("v").Op("=").Union(slot, Null())
+		want1, want2 = "v =", "v = "+x
+	case 3:
+		st = Id("f").Call(Add(slot))
+		want1, want2 = "f ()", "f ("+x+")"
+	}
+	f := NewFile("p")
+	r1, _ := c14raw(st, f)
+	verifAssert(r1 == want1, "the empty placeholder renders nothing")
+	slot.Id(x)
+	r2, _ := c14raw(st, f)
+	verifObserve("second", r2)
+	verifAssert(r2 == want2, "content added after a render is rendered the next time")
+}
